@@ -125,10 +125,10 @@ Proof. exists empty_ack_witness, 2000, (mkAck [] 1000 0 0 0). vm_compute. auto. 
 
 (** (2) "A received number at or above the Start of the lowest tracked range is flagged": false
     once the MaxNumAckRanges limit has dropped a range and a later, lower packet opens a new
-    lowest range. 65 isolated numbers 10,12,..,138 (10 is dropped), 13 merges two ranges,
-    5 opens a new lowest range: 10 was received, 5 <= 10, yet 10 is not flagged. *)
+    lowest range. MaxNumAckRanges+1 isolated numbers 10,12,.. (10 is dropped), 13 merges two
+    ranges, 5 opens a new lowest range: 10 was received, 5 <= 10, yet 10 is not flagged. *)
 Definition lowstart_witness : list hop :=
-  map (fun i => HRecv (10 + 2 * Z.of_nat i)) (seq 0 65) ++ [HRecv 13; HRecv 5].
+  map (fun i => HRecv (10 + 2 * Z.of_nat i)) (seq 0 (S (Z.to_nat rph_MaxNumAckRanges))) ++ [HRecv 13; HRecv 5].
 
 Lemma duplicate_lowstart_refuted :
   exists ops q s e rest,
@@ -138,5 +138,5 @@ Lemma duplicate_lowstart_refuted :
     snd (hrunW ops (newHist, None)) = Some 10.
 Proof.
   exists lowstart_witness, 10, 5, 5.
-  eexists. split; [left; reflexivity |]. vm_compute. repeat split; try reflexivity; discriminate.
+  eexists. split; [vm_compute; left; reflexivity |]. vm_compute. repeat split; try reflexivity; discriminate.
 Qed.
